@@ -85,6 +85,30 @@ def portion_of(pkg, m):
     """which directory of the package a module lives in (0: under base, 1: under the second root)"""
     return 1 if ns_kind(pkg) in ("split", "split_twice") and m.get("portion") else 0
 
+
+def effective_modules(pkg):
+    """the module files of the layout.  A module marked "twin" is a file in the second directory of a split
+    implicit package that has the NAME of a file in the first one (D15); it exists only in such a package"""
+    split = ns_kind(pkg) in ("split", "split_twice")
+    return [m for m in pkg.get("modules", []) if split or not m.get("twin")]
+
+
+def shadowed(pkg, m):
+    """Python imports <pkg>.<stem> from the first directory of __path__ that has <stem>.py (sys.path order: the
+    first root comes first): a file of the same name in the second directory is never a module of the package"""
+    return portion_of(pkg, m) == 1 and any(o is not m and o["stem"] == m["stem"] and portion_of(pkg, o) == 0
+                                           for o in effective_modules(pkg))
+
+
+def live_modules(pkg):
+    """the modules of the package, as Python sees it"""
+    return [m for m in effective_modules(pkg) if not shadowed(pkg, m)]
+
+
+def skey(pkg, m):
+    """how a module file is named in logs and identities: its stem, "|1" appended in the second directory"""
+    return m["stem"] + ("|1" if portion_of(pkg, m) == 1 else "")
+
 # How importing the package itself can fail although the package exists (its own __init__.py, or the __init__.py
 # of its parent package, does not run through).  "dotted": needs a parent package.
 PKG_FAIL_KINDS = {
@@ -147,12 +171,12 @@ def needed_classes(case):
     out = []
     if case["pkg"]["kind"] != "present":
         return out
-    for m in case["pkg"]["modules"]:
+    for m in live_modules(case["pkg"]):
         if m["fail"]:
             continue
         for c in m["classes"]:
             if c["mode"] is not None and not truth(c["disabled"]):
-                out.append((m["stem"], c))
+                out.append((skey(case["pkg"], m), c))
     return out
 
 
@@ -224,6 +248,23 @@ def gen_layout(r, idx):
     case = {"pkg": pkg}
     if not faulty:
         make_clean(r, case)
+    if pkg.get("nspath") in ("split", "split_twice") and pkg["modules"] and r.random() < 0.6:
+        # D15: the second directory has a file with the name of a file of the first one (the same source, other
+        # classes, or something that would not even import); Python never imports it
+        import copy
+        for m in r.sample(pkg["modules"], min(len(pkg["modules"]), r.choice([1, 1, 2]))):
+            m["portion"] = 0
+            t = copy.deepcopy(m)
+            t.update({"portion": 1, "twin": True})
+            k = r.random()
+            if k < 0.4:
+                pass
+            elif k < 0.85:
+                t["fail"] = None
+                t["classes"] = [gen_cls(r, cn, pool, False) for cn in sorted(r.sample(CNAMES, r.choice([1, 2, 3])))]
+            else:
+                t["fail"] = r.choice(FAILS)
+            pkg["modules"].append(t)
     return pkg
 
 
@@ -232,7 +273,7 @@ def key_pool(case, base):
     for stem, c in needed_classes(case):
         names.append(c["mode"])
         if case["fms"] and r_dup(case, c["mode"]):
-            names.append(c["cname"] + "_" + mod_file(case["pkg"], base, stem))
+            names += [c["cname"] + "_" + f for f in candidate_files(case["pkg"], base, stem)]
     return names
 
 
@@ -472,6 +513,26 @@ EDGE_CASES = [
      [], {"namespace": True, "nspath": "split"}),
     (False, [("alpha", None, [("A", "one", None, None, False)], 0), ("beta", "ValueError", [], 1)],
      [], {"namespace": True, "nspath": "split"}),
+    # D15: a module file NAME in both directories of an implicit package -- one module for Python (the file in the
+    # first directory of __path__), so its classes are constructed once; the other file is never looked at
+    (False, [("alpha", None, [("A", "one", None, True, False)], 0), ("alpha", None, [("A", "one", None, True, False)], 1, True),
+             ("beta", None, [("B", "two", None, None, False)], 1)],
+     [["start", None, None, 0], ["periodic", 20000], ["disable"]], {"namespace": True, "nspath": "split"}),
+    (True, [("alpha", None, [("A", "one", None, True, False)], 0), ("alpha", None, [("A", "one", None, True, False)], 1, True),
+            ("beta", None, [("B", "two", None, None, False)], 1)],
+     [["start", None, "two", 0], ["periodic", 20000], ["disable"]], {"namespace": True, "nspath": "split"}),
+    (False, [("alpha", None, [("A", "one", None, None, False)], 0),
+             ("alpha", None, [("A", "other", None, True, False), ("C", "three", None, None, False)], 1, True)],
+     [["start", None, "three", 0], ["disable"]], {"namespace": True, "nspath": "split_twice"}),
+    (False, [("alpha", None, [("A", "one", None, None, False)], 0), ("alpha", "SyntaxError", [], 1, True),
+             ("gamma", None, [("C", "three", None, True, False)], 0), ("gamma", "ValueError", [], 1, True)],
+     [["start", None, None, 0], ["disable"]], {"namespace": True, "nspath": "split"}),
+    (True, [("alpha", None, [("A", "one", None, None, "abstract"), ("B", "two", None, None, False)], 0),
+            ("alpha", None, [("A", "one", None, None, False), ("B", "two", None, None, False)], 1, True),
+            ("x9", None, [("D", "four", None, True, False)], 1)],
+     [["run", None, None, 0, 2, 20000, "disable"]], {"namespace": True, "nspath": "split_twice", "dotted": True}),
+    (False, [("alpha", "ValueError", [], 0), ("alpha", None, [("A", "one", None, None, False)], 1, True)],
+     [], {"namespace": True, "nspath": "split"}),
 ]
 
 
@@ -490,6 +551,8 @@ def edge_cases(base, start_idx):
                 for (cn, mo, di, de, ra) in cls]})
             if len(mod) > 3:
                 pkg["modules"][-1]["portion"] = mod[3]
+            if len(mod) > 4 and mod[4]:
+                pkg["modules"][-1]["twin"] = True
         out.append({"idx": start_idx + k, "fms": fms, "pkg": pkg, "ops": ops})
     return out
 
@@ -617,13 +680,10 @@ def pkg_dirs(pkg, base):
     return [d]
 
 
-def mod_file(pkg, base, stem):
-    """the path of a module file as glob() will return it"""
-    por = 0
-    for m in pkg.get("modules", []):
-        if m["stem"] == stem:
-            por = portion_of(pkg, m)
-    return os.path.join(pkg_dirs(pkg, base)[por], stem + ".py")
+def mod_file(pkg, base, key):
+    """the path of a module file (named by its skey) as glob() will return it"""
+    por = 1 if key.endswith("|1") and ns_kind(pkg) in ("split", "split_twice") else 0
+    return os.path.join(pkg_dirs(pkg, base)[por], key.split("|")[0] + ".py")
 
 
 def expected_nspath(pkg, base):
@@ -687,7 +747,8 @@ def helper_members(c):
     return []
 
 
-def module_source(m):
+def module_source(m, key=None):
+    key = key or m["stem"]
     src = "import abc\nimport c14_rt\n\n"
     if m.get("junk"):
         src += "LIMIT = 3\n\ndef helper():\n    return LIMIT\n\n"
@@ -696,9 +757,9 @@ def module_source(m):
     if m["fail"] == "ModuleNotFoundError":
         src = "import c14_no_such_dependency\n" + src
     elif m["fail"]:
-        src += "raise %s('c14-import-fail %s')\n\n" % (m["fail"], m["stem"])
+        src += "raise %s('c14-import-fail %s')\n\n" % (m["fail"], key)
     for c in m["classes"]:
-        src += cls_source(m["stem"], c)
+        src += cls_source(key, c)
     return src
 
 
@@ -728,9 +789,9 @@ def write_package(pkg, base):
     if not pkg["namespace"] or pkg_fails(pkg["kind"]):
         with open(os.path.join(d, "__init__.py"), "w") as f:
             f.write(init_source(pkg))
-    for m in pkg["modules"]:
+    for m in effective_modules(pkg):
         with open(os.path.join(dirs[portion_of(pkg, m)], m["stem"] + ".py"), "w") as f:
-            f.write(module_source(m))
+            f.write(module_source(m, skey(pkg, m)))
     extra = {"cname": "Hid", "mode": "hidden mode", "mn_none": False, "disabled": None, "default": True, "raises": False}
     if pkg["hidden"]:
         with open(os.path.join(d, ".hid.py"), "w") as f:
@@ -1061,7 +1122,7 @@ class Driver:
         def fpath(stem):
             return mod_file(pkg, self.base, stem)
 
-        obs["failing"] = [[fpath(m["stem"]), c["cname"]] for m in pkg.get("modules", []) for c in m["classes"] if c.get("raises")]
+        obs["failing"] = [[fpath(skey(pkg, m)), c["cname"]] for m in live_modules(pkg) for c in m["classes"] if c.get("raises")]
         from robotpy_ext.autonomous.selector import AutonomousModeSelector
         name = pkg_import_name(pkg)
         s = None
@@ -1201,24 +1262,27 @@ def cls_term(c):
                                              coq_bool(truth(c["default"])), BEHAVIOUR[how_of(c)])
 
 
-def package_term(case, obs):
-    """(package name, [what import_module(name) did]): the model decides what that means.  One alternative, except
-    for an implicit package with several directories: one per order in which they may be scanned"""
+def package_term(case, obs, base):
+    """(package name, [(what import_module(name) did, the observation)]): the model decides what that means.
+    One alternative, except for an implicit package with several directories: one per order in which they may be
+    scanned, each with the observation whose class identities are expressed for that order (see file_remap)"""
     pkg = case["pkg"]
     name = q(pkg_import_name(pkg))
     imp = obs["imp"]
     if imp[0] == "importerror":
-        return "%s, [ImportRaisesImportError %s %s]" % (name, coq_bool(imp[1]), coq_opt(imp[2], q))
+        return "%s, [(ImportRaisesImportError %s %s, %s)]" % (name, coq_bool(imp[1]), coq_opt(imp[2], q), obs_term(obs))
     if imp[0] == "other":
-        return "%s, [ImportRaisesOther]" % name
-    by_stem = {m["stem"]: m for m in pkg["modules"]}
+        return "%s, [(ImportRaisesOther, %s)]" % (name, obs_term(obs))
+    # what importing "." + stem gives and what inspect.getmembers finds there depends on the NAME only: the module
+    # of the package with that name (a shadowed file of the same name is never imported)
+    live = {m["stem"]: m for m in live_modules(pkg)}
 
     def mod_term(f):
         stem = os.path.basename(f)[:-3]
         if stem == "__init__":
             cl, fail = pkg["init_classes"], False
         else:
-            m = by_stem[stem]
+            m = live[stem]
             cl, fail = m["classes"], bool(m["fail"])
         cl = [x for c in cl for x in [c] + helper_members(c)]
         cl = sorted(cl, key=lambda c: c["cname"])          # inspect.getmembers order
@@ -1228,9 +1292,44 @@ def package_term(case, obs):
     if obs.get("nspath") is not None:
         # an implicit package: its __path__ entry by entry, each with the glob of the directory
         por = {d: "mkPortion %s %s" % (q(d), coq_list([mod_term(f) for f in obs["listing"][d]])) for d in set(obs["nspath"])}
-        return "%s, %s" % (name, coq_list(["ImportedNamespace %s" % coq_list([por[d] for d in arr])
+        return "%s, %s" % (name, coq_list(["(ImportedNamespace %s, %s)" % (coq_list([por[d] for d in arr]),
+                                                                          obs_term(remapped(obs, file_remap(pkg, base, obs, arr))))
                                            for arr in arrangements(obs["nspath"])]))
-    return "%s, [Imported %s]" % (name, coq_list([mod_term(f) for f in obs["files"]]))
+    return "%s, [(Imported %s, %s)]" % (name, coq_list([mod_term(f) for f in obs["files"]]), obs_term(obs))
+
+
+def file_remap(pkg, base, obs, arr):
+    """{file as the harness names it: file as the model names it} when the directories are scanned in the order
+    `arr`.  The harness identifies a class by the file that DEFINES it; the selector (and the model) by the first
+    file it meets that has the module's name, which may be the shadowed file of the same name in another directory.
+    A class defined in a shadowed file -- never imported, so it cannot be constructed by going through the
+    package -- keeps a name the model does not produce."""
+    out = {}
+    dirs = list(dict.fromkeys(arr))
+    for m in effective_modules(pkg):
+        own = mod_file(pkg, base, skey(pkg, m))
+        if shadowed(pkg, m):
+            out[own] = own + "#shadowed"
+            continue
+        for d in dirs:
+            f = os.path.join(d, m["stem"] + ".py")
+            if f in obs["listing"].get(d, []):
+                if f != own:
+                    out[own] = f
+                break
+    return out
+
+
+def remapped(obs, fmap):
+    if not fmap:
+        return obs
+    o = dict(obs)
+    ren = lambda ident: [fmap.get(ident[0], ident[0]), ident[1]]
+    o["ctors"] = [ren(c) for c in obs["ctors"]]
+    o["failing"] = [ren(c) for c in obs.get("failing", [])]
+    o["modes"] = [[k, ren(v)] for k, v in obs["modes"]]
+    o["events"] = [[k, ren(i), t] for k, i, t in obs["events"]]
+    return o
 
 
 def sel_term(dash, choice):
@@ -1271,8 +1370,8 @@ def obs_term(obs):
         coq_list([call_term(c) for c in obs.get("failing", [])]))
 
 
-def case_term(case, obs):
-    return "(%s, %s, %s, %s)" % (coq_bool(case["fms"]), package_term(case, obs), ops_term(obs["mops"]), obs_term(obs))
+def case_term(case, obs, base):
+    return "(%s, %s, %s)" % (coq_bool(case["fms"]), package_term(case, obs, base), ops_term(obs["mops"]))
 
 
 def printable(obs):
@@ -1287,8 +1386,8 @@ HEADER = ("From Coq Require Import String List ZArith Bool.\n"
           "Import ListNotations.\nOpen Scope string_scope.\nOpen Scope list_scope.\n")
 
 
-def cases_file(pairs):
-    body = ";\n ".join(case_term(c, o) for c, o in pairs)
+def cases_file(pairs, base):
+    body = ";\n ".join(case_term(c, o, base) for c, o in pairs)
     return (HEADER + "Definition cases : list case := [\n %s\n].\n"
             "Eval vm_compute in (bad_indices cases).\n"
             "Eval vm_compute in (bad_clauses cases).\n" % body)
@@ -1311,7 +1410,7 @@ def oracle(case, obs, base):
     dup = len(set(names)) != len(names)
     healthy = [(s, c) for s, c in need if not c["raises"]]
     ndef = sum(1 for _, c in need if truth(c["default"]))
-    import_fault = kind == "present" and any(m["fail"] for m in pkg["modules"])
+    import_fault = kind == "present" and any(m["fail"] for m in live_modules(pkg))
     ctor_fault = any(c["raises"] for _, c in need)
     initfail = pkg_fails(kind)
     any_fault = import_fault or ctor_fault or dup or ndef > 1 or initfail
@@ -1348,6 +1447,10 @@ def oracle(case, obs, base):
                 text = "no FMS, fault-free layout, constructor raised %s" % obs["exc"]
                 if obs.get("nspath") is not None:
                     text += " (implicit package, __path__ = %s; constructor calls %s)" % (obs["nspath"], [c[1] for c in obs["ctors"]])
+                twins = sorted(set(m["stem"] for m in effective_modules(pkg) if shadowed(pkg, m)))
+                if twins:
+                    text += ("; module file name(s) %s exist in both directories: Python imports each name once, from the "
+                             "first directory" % twins)
                 v.append(("raised-without-fault", text))
     else:
         if raised:
@@ -1364,10 +1467,14 @@ def oracle(case, obs, base):
     if want != got or again:
         missing = [x for x in want if x not in got]
         extra = [x for x in got if x not in want or got.count(x) > 1] + again
+        hidden = [mod_file(pkg, base, skey(pkg, m)) for m in effective_modules(pkg) if shadowed(pkg, m)]
         text = ("constructor calls differ from the classes with MODE_NAME and not DISABLED: "
                 "missing %s, unexpected/repeated %s" % (missing[:3], extra[:3]))
         if obs.get("nspath") is not None:
             text += " (implicit package, __path__ = %s)" % (obs["nspath"],)
+        if any(x[0] in hidden for x in extra):
+            text += ("; %s is not a module of the package: a file of that name in an earlier directory of __path__ "
+                     "is what Python imports" % [h for h in hidden if any(x[0] == h for x in extra)][:2])
         v.append(("instantiation-set", text))
     modes = {k: i for k, i in obs["modes"]}
     # the two open findings (known_findings.json) get their own fingerprints; the generic clauses below are
@@ -1607,8 +1714,17 @@ def resolve_dir(case, base):
 
 def key_clash(case, base):
     need = needed_classes(case)
-    ren = set(c["cname"] + "_" + mod_file(case["pkg"], base, s) for s, c in need)
+    ren = set(c["cname"] + "_" + f for s, c in need for f in candidate_files(case["pkg"], base, s))
     return any(c["mode"] in ren for _, c in need)
+
+
+def candidate_files(pkg, base, key):
+    """the file names the selector may associate with a module: its own, and a shadowed file of the same name"""
+    out = [mod_file(pkg, base, key)]
+    for m in effective_modules(pkg):
+        if shadowed(pkg, m) and m["stem"] == key.split("|")[0]:
+            out.append(mod_file(pkg, base, skey(pkg, m)))
+    return out
 
 
 def renumber(cases):
@@ -1732,6 +1848,12 @@ def run(ctx):
             ctx.count("implicit-package:__path__=%s" % ns_kind(c["pkg"]))
             if len(o["nspath"]) != len(set(o["nspath"])) and o["err"] == 0 and o["ctors"]:
                 ctx.count("implicit-package:a-directory-listed-again,built,>=1-constructor-call")
+        for m in effective_modules(c["pkg"]):
+            if shadowed(c["pkg"], m):
+                live = [x for x in live_modules(c["pkg"]) if x["stem"] == m["stem"]][0]
+                ctx.count("implicit-package:module-name-in-both-directories,%s" % (
+                    "shadowed-file-would-not-import" if m["fail"] else
+                    "same-classes" if m["classes"] == live["classes"] and not live["fail"] else "other-classes"))
         for _, x in needed_classes(c):
             ctx.count("needed-class:constructor=%s" % (how_of(x) or "plain"))
         first_ctor_fault = [x for _, x in needed_classes(c) if x["raises"]]
@@ -1748,7 +1870,7 @@ def run(ctx):
             ctx.count("AttributeError")
         if any(k != "None" and "/" in k for k in o["options"]):
             ctx.count("fms-renamed-duplicate")
-    items = [("cases_%d" % k, cases_file(sh)) for k, sh in enumerate(shards(pairs, SHARD))]
+    items = [("cases_%d" % k, cases_file(sh, base)) for k, sh in enumerate(shards(pairs, SHARD))]
     res = ctx.coq_files_parallel(items)
     bad = []
     for k, (name, _) in enumerate(items):
@@ -1783,7 +1905,7 @@ def run(ctx):
                 "12%% otherwise ill-formed; non-trivial = built, >= 2 modes and >= 3 "
                 "callbacks delivered" % (len(EDGE_CASES), len(CTOR_FAILS), len(PKG_FAIL_KINDS)),
         "corpus_cases": ncorpus,
-        "samples": [{"fms": c["fms"], "modules": [(m["stem"], m["fail"], [(x["cname"], x["mode"]) for x in m["classes"]])
+        "samples": [{"fms": c["fms"], "modules": [(skey(c["pkg"], m), m["fail"], [(x["cname"], x["mode"]) for x in m["classes"]])
                                                    for m in c["pkg"].get("modules", [])],
                      "ops": o["mops"][:6], "err": o["err"], "options": o["options"], "default": o["default"],
                      "events": o["events"][:8]} for c, o in pairs[len(EDGE_CASES) + ncorpus:][:3]],
@@ -1926,7 +2048,11 @@ def replay(ctx, obj):
     print("package=%s kind=%s: import_module() raises %s" % (pkg_import_name(case["pkg"]), case["pkg"]["kind"], import_text(o.get("imp"))))
     if o.get("nspath") is not None:
         print("implicit package (no __file__), __path__ = %s" % (o["nspath"],))
-    for m in case["pkg"].get("modules", []):
+    for m in effective_modules(case["pkg"]):
+        if shadowed(case["pkg"], m):
+            print("file %s has the name of a file in an earlier directory of __path__: Python never imports it"
+                  % mod_file(case["pkg"], base, skey(case["pkg"], m)))
+    for m in live_modules(case["pkg"]):
         for c in m["classes"]:
             if c.get("raises"):
                 print("class %s.%s cannot be constructed: %s" % (m["stem"], c["cname"], CTOR_TEXT[how_of(c)]))
